@@ -13,6 +13,8 @@ def place(rng):
         return "e"
     if r < 0.55:
         return "s"
+    if r < 0.61:
+        return "g"          # straddling a multiple of 4 GiB
     return "a%d" % rng.randrange(64)
 
 
